@@ -8,6 +8,9 @@ func checkC05(p *Program, tier string) *Result {
 	ruleFramingReader(p, r)
 	ruleFramingWriter(p, r)
 	ruleConnWhoMayCall(p, r)
+	// a failed read leaves the stream at an unknown offset: it must be terminal (no further read, no handler)
+	ruleLoop(p, r, "c")
+	r.floor("R-LOOP", 2)
 	r.floor("R-FRAMING", 14)
 	r.Trusted = append(r.Trusted, "io.ReadFull returns an error unless the buffer was filled", "bufio.Reader delivers the bytes of the underlying reader in order, keeping unread bytes for the next call", "append, make, encoding/binary.BigEndian")
 	r.Assumptions = append(r.Assumptions, "'a stream that stalls produces an error' additionally needs the read deadline to fire (C17 decides that it is armed)")
